@@ -18,7 +18,7 @@ PROPS = {
     "C03": {
         "modules": ["Ezpz.Properties.C03"],
         "suites": [
-            {"suite": "trace", "quick": (400, "prio,contra,planted,linear,caps,malformed"), "thorough": (6000, "prio,contra,planted,linear,caps,malformed")},
+            {"suite": "trace", "quick": (400, "prio,contra,planted,linear,caps,malformed,conflict,disparity"), "thorough": (6000, "prio,contra,planted,linear,caps,malformed,conflict,disparity")},
         ],
         "oracles": [
             {"bin": "oracle_c03", "quick": ("{seed}", "1500", "0"), "thorough": ("{seed}", "20000", "1")},
@@ -42,7 +42,7 @@ PROPS = {
         "modules": ["Ezpz.Properties.C01"],
         "suites": [
             {"suite": "kernels", "quick": (150,), "thorough": (3000,)},
-            {"suite": "trace", "quick": (300, "planted,contra,prio,linear"), "thorough": (5000, "planted,contra,prio,linear,caps,malformed")},
+            {"suite": "trace", "quick": (300, "planted,contra,prio,linear,conflict,disparity"), "thorough": (5000, "planted,contra,prio,linear,caps,malformed,conflict,disparity")},
         ],
         "oracles": [
             {"bin": "oracle_c01", "quick": ("{seed}", "600"), "thorough": ("{seed}", "20000")},
@@ -66,7 +66,7 @@ PROPS = {
     "C07": {
         "modules": ["Ezpz.Properties.C07"],
         "suites": [
-            {"suite": "trace", "quick": (400, "prio,contra,planted,malformed"), "thorough": (6000, "prio,contra,planted,malformed,linear,caps")},
+            {"suite": "trace", "quick": (400, "prio,contra,planted,malformed,conflict"), "thorough": (6000, "prio,contra,planted,malformed,linear,caps,conflict")},
         ],
         "oracles": [
             {"bin": "oracle_c07", "quick": ("{seed}", "1000"), "thorough": ("{seed}", "30000")},
@@ -96,5 +96,28 @@ PROPS = {
         ],
         "partial": ["results that stopped on the step-size test or fell back to a higher level are not 'converged' in the property's sense; the theorems' hypotheses say so (ghost flag byResidual / ConvergedAt)"],
         "assumptions": [],
+    },
+    "C08": {
+        "modules": ["Ezpz.Properties.C08"],
+        "suites": [
+            {"suite": "text", "quick": (400, 200), "thorough": (20000, 5000)},
+        ],
+        "oracles": [],
+        "partial": ["the grammar (winnow combinators, f64::from_str) is modelled by hand and covered by the correspondence check only; a parse/print round-trip theorem is not proved",
+                    "guess values at the specified ids and the labelled outcome are checked by the oracle inside corr-text (constraints / guesses / labels a user would build by hand), not proved"],
+        "assumptions": ["VARS_PER_POINT/CIRCLE/ARC are the values extracted from geometry_variables.rs on this run"],
+        "rule": "texts are generated from the grammar (0..6 points, 0..3 circles, 0..3 arcs in any interleaving, 1..20 instructions over all 24 syntactic forms, several number syntaxes, optional whitespace) plus a mutation stream; each is compared exactly (parse dump, constraints, guesses, labelled outcome) between the real front-end and the Lean model, and against hand-built constraints",
+    },
+    "C09": {
+        "modules": ["Ezpz.Properties.C09"],
+        "suites": [
+            {"suite": "text", "quick": (200, 600), "thorough": (5000, 30000)},
+        ],
+        "oracles": [
+            {"bin": "oracle_c09_deep", "quick": ("100000", "1000000"), "thorough": ("1000000", "8000000"), "expect_stdout": "DEEP-OK"},
+        ],
+        "partial": ["parser_total proves that the *grammar* terminates on every string; the stack depth and running time of the Rust parser are runtime behaviour, observed by running deep / long inputs in a child process"],
+        "assumptions": [],
+        "rule": "mutation stream over generated valid texts (deleted / duplicated / renamed labels, swapped sections, truncation, inserted characters incl. non-ASCII, extra / missing guesses, undeclared references, sqrt nesting, odd numbers, noise) compared exactly between the real front-end and the Lean model; strictness and no-silent-drop checked on the real code",
     },
 }
